@@ -20,6 +20,7 @@ import (
 )
 
 type rtEnv struct {
+	tie     bool                           // set when a Round/RoundToEven argument is exactly half-way
 	vals    map[string]string              // metric-level name ("C", "eC", ...) -> value string
 	weights map[string]map[string]*big.Rat // "C" -> value -> weight ; "PR|S" -> "L|C" -> weight
 }
@@ -202,9 +203,14 @@ func (e *rtEnv) eval(t *Ex, free map[string]*big.Rat, rounds map[string]*Ex) (*b
 				}
 			}
 			return m, nil
-		case "Round":
-			return ratRoundHalfAway(args[0]), nil
-		case "RoundToEven":
+		case "Round", "RoundToEven":
+			fr := new(big.Rat).Sub(args[0], ratFloor(args[0]))
+			if fr.Cmp(big.NewRat(1, 2)) == 0 {
+				e.tie = true
+			}
+			if t.Name == "Round" {
+				return ratRoundHalfAway(args[0]), nil
+			}
 			return ratRoundHalfEven(args[0]), nil
 		case "Floor":
 			return ratFloor(args[0]), nil
